@@ -9,6 +9,9 @@ ops (names are opaque tokens):
   increment <name> | count <name> <n> | gauge <name> <v> | histogram <name> <v>
   up <name> | down <name> | store <name> <v>
   get <name>                      obs: none | some:<float token>   (<v> above is a float token too, see below)
+  creg <kind> <g> <n> <r> <base>  concurrent first registration of r fresh names <base>.<j> by g
+      goroutines, each Register then n updates; obs: the readings at quiescence, comma separated
+      (gauge: `in` if one of the written values 1..g); monitor sig C33:updates-lost:concurrent-first-registration
   conc <g> <item>,<item>,…        item = <i|c|u|d>*<reps>*<n>*<name>; obs: done
       the model applies the multiset in the listed order: by `conc_order_independent` every
       linearisation of these atomic adds gives the same readings.
@@ -105,6 +108,7 @@ def tokStr (v : Int) : String :=
 inductive Parsed where
   | one (op : Op String)
   | burst (ops : List (Op String))
+  | creg (ty : MType) (g n r : Nat) (base : String)
   | bad
 
 def parseOp : List String → Parsed
@@ -117,6 +121,10 @@ def parseOp : List String → Parsed
   | ["down", n] => .one (.down n)
   | ["store", n, v] => match parseTok v with | some v => .one (.store n v) | none => .bad
   | ["get", n] => .one (.get n)
+  | ["creg", ty, g, n, r, base] =>
+    match parseType ty, g.toNat?, n.toNat?, r.toNat? with
+    | some ty, some g, some n, some r => .creg ty g n r base
+    | _, _, _, _ => .bad
   | ["conc", g, items] =>
     match g.toNat?, parseItems items with
     | some _, some l => .burst l
@@ -127,6 +135,37 @@ def optStr : Option Int → String
   | none => "none"
   | some v => "some:" ++ tokStr v
 
+/-- the fresh names of a `creg` op -/
+def cregNames (r : Nat) (base : String) : List String :=
+  (List.range r).map fun j => base ++ "." ++ toString j
+
+/-- one linearisation of `creg`: goroutine after goroutine, each `Register` then its `n` updates
+(every other interleaving gives the same totals: `concurrent_first_registration_totals`) -/
+def cregOps (ty : MType) (g n r : Nat) (base : String) : List (Op String) :=
+  (cregNames r base).flatMap fun nm =>
+    (List.range g).flatMap fun (w : Nat) =>
+      Op.register nm ty :: List.replicate n (match ty with
+        | .counter => Op.increment nm
+        | .updown => Op.up nm
+        | .gauge => Op.gauge nm (Int.ofNat w + 1)
+        | .histogram => Op.histogram nm 0)
+
+def cregRender (ty : MType) (g n : Nat) (v : Option Int) : String :=
+  match v with
+  | none => "none"
+  | some x =>
+    if ty == .gauge && n > 0 then
+      (if 1 ≤ x ∧ x ≤ (g : Int) then "in" else "out:" ++ tokStr x)
+    else "some:" ++ tokStr x
+
+/-- what the property demands of a `creg` reading: g·n for counters and up-downs, one of the
+written values for a gauge -/
+def cregWant (ty : MType) (g n : Nat) : String :=
+  match ty with
+  | .counter | .updown => "some:" ++ toString (g * n)
+  | .gauge => if n > 0 then "in" else "some:0"
+  | .histogram => "none"
+
 /-- state: (`keep` flag of the model, store).  `keep` is false (the code as it is) unless the case
 header says `register=keep` (used to check the proposed repair against the repaired model). -/
 def mStep (ks : Bool × St String) (op : List String) (_ : List (List String)) :
@@ -135,6 +174,9 @@ def mStep (ks : Bool × St String) (op : List String) (_ : List (List String)) :
   match parseOp op with
   | .bad => (ks, some "bad-op")
   | .burst l => ((keep, runFrom keep s l), some "done")
+  | .creg ty g n r base =>
+    let s' := runFrom keep s (cregOps ty g n r base)
+    ((keep, s'), some (",".intercalate ((cregNames r base).map fun nm => cregRender ty g n (get s' nm))))
   | .one (.get n) => (ks, some (optStr (get s n)))
   | .one o => ((keep, step keep s o), none)
 
@@ -218,6 +260,20 @@ def mMon (m : MSt) (op : List String) (_ : List (List String)) (obs : Option Str
   match parseOp op with
   | .bad => (m, [])
   | .burst l => (l.foldl note m, [])
+  | .creg ty g n r base =>
+    let m' := (cregOps ty g n r base).foldl note m
+    let want := cregWant ty g n
+    let outs := match obs with | some o => o.splitOn "," | none => []
+    let names := cregNames r base
+    let fails : List Fail :=
+      if outs.length != names.length then
+        [{ prop := "C33", sig := "C33:creg-unreadable", what := s!"creg answered {obs.getD "-"}" }]
+      else
+        (names.zip outs).filterMap fun (nm, o) =>
+          if o == want then none
+          else some { prop := "C33", sig := "C33:updates-lost:concurrent-first-registration",
+                      what := s!"{g} goroutines registered {nm} ({typeStr ty}) and made {n} updates each: get answered {o}, recorded {want}" }
+    (m', fails)
   | .one (.get n) =>
     let r := recOf m n
     let (route, full, since, dom) := expected r
